@@ -153,7 +153,7 @@ def make_spec(seed, tier):
     from omv.gen import recmodels as G
     rng = random.Random(seed)
     flavor = rng.random()
-    kw = {'allow_special': flavor < 0.25}
+    kw = {'allow_special': flavor < 0.25, 'allow_scaled': 0.25 <= flavor < 0.4}
     if flavor > 0.85:
         kw['ndoe'] = 12              # two-digit iteration counts
     spec = G.gen_spec(rng, **kw)
